@@ -614,8 +614,10 @@ def run_e2e(ctx, hexe, uft, failures, cov):
             nat = subprocess.run([exe], stdout=subprocess.PIPE, stderr=subprocess.PIPE, text=True, timeout=20)
             for ci in range(ncfg):
                 ptype, opts, z = gen_e2e_config(ctx.rng, names)
+                if len(failures) >= 3:      # enough evidence; bound the cost of a broken tree
+                    continue
                 data = os.path.join(wd, "d-%d-%d-%d" % (pi, bi, ci))
-                cmd = ["timeout", "30", uft, "record", "--libmcount-path=" + os.path.join(ctx.src, "libmcount"),
+                cmd = ["timeout", "10", uft, "record", "--libmcount-path=" + os.path.join(ctx.src, "libmcount"),
                        "--no-libcall", "--no-event", "--match=" + ptype, "-d", data]
                 for o, p in opts:
                     cmd += ["-" + o, p]
